@@ -124,7 +124,9 @@ def writer_sat(s, known, verdict=True):
     if not s.inproc_ok:
         return
     for n in (1, 3) if quick else (1, 2, 3, 5):
-        m = s.drive("sat", binary=s.vinproc, args=["-n", str(n)])
+        m = s.drive("sat", binary=s.vinproc, args=["-n", str(n)]) if verdict else s.drive_soft("sat", binary=s.vinproc, args=["-n", str(n)])
+        if m is None:
+            return
         # what-level (verdict): the outcome of WriteTo against the length of the piece
         # (C08 speaks only of what is output on success: there the outcome demand is a drift note, not a verdict)
         s.validate(m, "WriterSatTrace", cfg="WriterSatTraceWhat.cfg", known=known, shard=max(10, len_records(m) // 4 + 1), constants={"N": n}, drift=not verdict)
@@ -143,7 +145,9 @@ def play_mechanism(s, known):
     s.model("PlayMC", workers=8)
     if not s.inproc_ok:
         return
-    m = s.drive("play", binary=s.vinproc)
+    m = s.drive_soft("play", binary=s.vinproc)
+    if m is None:
+        return
     s.validate(m, "PlayTrace", known=known, shard=max(10, len_records(m) // 8 + 1), drift=True)
 
     def corrupt(rec):
